@@ -141,6 +141,7 @@ def _hoisted_locals(fd, log=None):
             later = [n for n in nodes if order[id(n)] > last]
             rebound = {n.id for n in later if isinstance(n, ast.Name) and isinstance(n.ctx, (ast.Store, ast.Del))}
             changed = set()         # names whose object may change after the statement
+            changed_paths = set()
             attr_stored = set()
             for n in later:
                 if isinstance(n, (ast.Attribute, ast.Subscript)) and isinstance(n.ctx, (ast.Store, ast.Del)):
@@ -154,10 +155,16 @@ def _hoisted_locals(fd, log=None):
                 if isinstance(n, ast.Call):
                     if isinstance(n.func, ast.Attribute):
                         r_ = n.func.value
+                        first_ = None
                         while isinstance(r_, (ast.Attribute, ast.Subscript)):
+                            if isinstance(r_, ast.Attribute):
+                                first_ = r_.attr
                             r_ = r_.value
                         if isinstance(r_, ast.Name):
-                            changed.add(r_.id)
+                            if first_ is None:
+                                changed.add(r_.id)
+                            else:
+                                changed_paths.add((r_.id, first_))      # obj.field.method(): obj.field may change, obj's other fields do not
                     if not (isinstance(n.func, ast.Name) and n.func.id in ('len', 'str', 'int', 'isinstance', 'bool', 'range', 'enumerate', 'min', 'max')):
                         for a_ in list(n.args) + [k.value for k in n.keywords]:
                             if isinstance(a_, ast.Name):
@@ -183,7 +190,12 @@ def _hoisted_locals(fd, log=None):
                     if not isinstance(r_, ast.Name) or r_.id in rebound:
                         return False
                     if r_.id in sto or r_.id in params:
-                        return r_.id not in changed
+                        if r_.id in changed:
+                            return False
+                        x_ = e
+                        while isinstance(x_.value, ast.Attribute):
+                            x_ = x_.value
+                        return (r_.id, x_.attr) not in changed_paths
                     return True         # a module-level constant chain: AnsiParam.RESET.value
                 if isinstance(e, ast.Call):
                     if not (isinstance(e.func, ast.Name) and e.func.id in ('len', 'str', 'int') and e.func.id not in sto and e.func.id not in params and
@@ -1696,6 +1708,9 @@ def _fallback_split(fd, log=None):
     def plain(e):
         return isinstance(e, (ast.Name, ast.Constant)) or (isinstance(e, ast.Attribute) and plain(e.value))
 
+    def names_of(st):
+        return {n.id for n in ast.walk(st) if isinstance(n, ast.Name)}
+
     def rewrite(stmts):
         i = 0
         while i + 1 < len(stmts):
@@ -1711,6 +1726,12 @@ def _fallback_split(fd, log=None):
                     sel1.setdefault(stmts[j].targets[0].id, stmts[j].value)
                     j -= 1
                 first = stmts[j] if j >= 0 else None
+                # ... or just before the first attempt
+                j2 = j - 1
+                while first is not None and j2 >= 0 and isinstance(stmts[j2], ast.Assign) and len(stmts[j2].targets) == 1 and isinstance(stmts[j2].targets[0], ast.Name) and \
+                        stmts[j2].targets[0].id != mname and plain(stmts[j2].value) and stmts[j2].targets[0].id not in names_of(first):
+                    sel1.setdefault(stmts[j2].targets[0].id, stmts[j2].value)
+                    j2 -= 1
                 if isinstance(first, ast.Assign) and len(first.targets) == 1 and isinstance(first.targets[0], ast.Name) and first.targets[0].id == mname and \
                         any(isinstance(b, ast.Assign) and len(b.targets) == 1 and isinstance(b.targets[0], ast.Name) and b.targets[0].id == mname for b in F.body):
                     sel2 = {}
